@@ -34,7 +34,7 @@ func init() {
 	})
 	property(&Property{
 		ID:    "C05",
-		Rules: []string{"STATUS-TABLE", "TABLE-GUARD", "TWIRP-TABLE", "ENCODER-CLOSE", "TAIL-FLUSH", "PANIC-REACH-SERVE", "ERR-SAME-STATUS", "GRPC-TRAILER-VALUES", "ESCAPE-SET"},
+		Rules: []string{"STATUS-TABLE", "TABLE-GUARD", "TWIRP-TABLE", "ENCODER-CLOSE", "TAIL-FLUSH", "PANIC-REACH-SERVE", "ERR-SAME-STATUS", "GRPC-TRAILER-VALUES", "ESCAPE-SET", "CODEC-LOOKUP-TOTAL"},
 		Decides: "Decides the table-shaped and pairing-shaped parts of status fidelity: status tables equal the documented mapping and their guards are exact; the Twirp name table equals the Twirp spec; the base64 stream of gRPC-web-text is terminated; the grpc-message encoder writes its tail; the error encoders contain no reachable panic; code, message and details come from one status value derived from the handler's error and reach the gRPC trailers through the right encoders.",
 		NotDecided: "encodeGrpcMessage's per-character output beyond 'no input byte is skipped', WebSocket close-frame payload limits, equality of details.",
 		Assumptions: commonAssumptions,
@@ -62,7 +62,7 @@ func init() {
 	})
 	property(&Property{
 		ID:    "C09",
-		Rules: []string{"PANIC-REACH-SERVE", "COMMAOK-SERVE", "ASSERT-CHECKED", "TABLE-GUARD", "SIGNCONV", "OFFSET-BASE", "FIELDPATH-SINGULAR", "TOKEN-KINDS", "NIL-MAP-WRITE", "STATS-PURE", "SLICE-CAP", "NILABLE-FIELD", "FD-LOCAL"},
+		Rules: []string{"PANIC-REACH-SERVE", "COMMAOK-SERVE", "ASSERT-CHECKED", "TABLE-GUARD", "SIGNCONV", "OFFSET-BASE", "FIELDPATH-SINGULAR", "TOKEN-KINDS", "NIL-MAP-WRITE", "STATS-PURE", "SLICE-CAP", "NILABLE-FIELD", "FD-LOCAL", "CODEC-LOOKUP-TOTAL"},
 		Decides: "Decides the absence, on every call-graph path from the request entry points, of the enumerated crash constructs: explicit panic, use of a comma-ok result where ok may be false, unjustified single-result type assertions, off-by-one table guards, sign-changing conversions of wire lengths, index-relative-to-wrong-base arithmetic, field paths walking through repeated/map/scalar fields, pattern tokens the matcher panics on, writes through nil maps, stats-only slicing.",
 		NotDecided: "general slice/index arithmetic, nil dereferences beyond the comma-ok class, termination, resource exhaustion, panics inside dependencies beyond the encoded contracts.",
 		Assumptions: commonAssumptions,
